@@ -94,7 +94,7 @@ def _draw_ambient():
         # the application runs with warnings turned into errors (python -W error, a test runner's filterwarnings=error)
         "warn_error": ("warn_error" in AMB.dims and r.random() < 0.2),
         # every API call of the connection is made by another (fresh) thread, one after the other (a thread pool / run_in_executor)
-        "thread_hop": ("thread_hop" in AMB.dims and r.random() < 0.12),
+        "thread_hop": ("thread_hop" in AMB.dims and r.random() < 0.04),
         # boolean options spelled 1 / 0 instead of True / False
         "truthy": ("truthy" in AMB.dims and r.random() < 0.2),
     }
